@@ -608,8 +608,14 @@ Fixpoint non_idle_fsm (fuel : nat) (pkt : option pdu) : D unit :=
   when b check_limit_handling ;;;
   b <- step_is DS_WAITING_FOR_MISSING_DATA ;;
   when b
-    ((* CFDP 4.7.2: a re-sent EOF is acknowledged again (F24 repair) *)
-     (match pkt with Some (PEof _ _ _ _ _) => prepare_eof_ack_packet | _ => ret tt end) ;;;
+    ((* CFDP 4.7.2: a re-sent EOF is acknowledged again (F24 repair); an EOF (cancel) stops the deferred procedure and
+        gets the Cancel Response Procedures, which acknowledge it (F33 repair) *)
+     (match pkt with
+      | Some (PEof _ cond ck sz _) =>
+          if cond =? C_NO_ERROR then prepare_eof_ack_packet
+          else (setp (fun p => p <| p_deferred := false |>) ;;; handle_eof_pdu cond ck sz)
+      | _ => ret tt
+      end) ;;;
      (match pkt with
       | Some (PFileData _ off data) =>
           handle_fd_pdu off data ;;;
